@@ -172,6 +172,15 @@ func (r *FnRun) assumeTypeInv(st *State, v Val, t types.Type) {
 			st.assume(Le(BVInt(0, 64, true), ln), "string len >= 0")
 			r.assumeValid(st, sv.F[0].(Term), ln, false)
 		}
+	case *types.Pointer:
+		// a non-nil *T points to a T-sized object inside the address space
+		if _, isStruct := u.Elem().Underlying().(*types.Struct); isStruct {
+			p := v.(Term)
+			nz := Not(Eq(p, BVInt(0, PtrW, false)))
+			size := BVInt(r.E.Sizes.Sizeof(u.Elem()), 64, false)
+			st.assume(Implies(nz, validTerm(p, size)), "typed pointer points to an object")
+			st.regions = append(st.regions, Region{Base: p, Size: size, Cond: nz})
+		}
 	case *types.Slice:
 		sv := v.(*StructVal)
 		ln, cp := sv.F[1].(Term), sv.F[2].(Term)
@@ -322,7 +331,7 @@ func (r *FnRun) findLoops() {
 						}
 					}
 				case ssa.CallInstruction:
-					li.hasCall = true
+					r.loopCallEffect(li, x)
 				case *ssa.MapUpdate:
 					li.allMem = true
 				}
@@ -330,6 +339,38 @@ func (r *FnRun) findLoops() {
 		}
 	}
 	r.loopOrd = heads
+}
+
+// loopCallEffect: which heap arrays a call inside a loop may change.
+func (r *FnRun) loopCallEffect(li *loopInfo, c ssa.CallInstruction) {
+	if _, ok := c.Common().Value.(*ssa.Builtin); ok {
+		return
+	}
+	callee := c.Common().StaticCallee()
+	if callee == nil {
+		li.hasCall = true
+		return
+	}
+	name := fullName(callee)
+	switch name {
+	case clitePkg + ".Advance", rtPkg + "/math.MulUintptr":
+		return
+	case clitePkg + ".Memcpy", clitePkg + ".Memmove", clitePkg + ".Memset":
+		li.mems["M8"] = true
+		return
+	}
+	if cc, ok := r.E.Contracts[name]; ok {
+		pure := len(cc.Modifies) > 0
+		for _, m := range cc.Modifies {
+			if m != "nothing" {
+				pure = false
+			}
+		}
+		if pure {
+			return
+		}
+	}
+	li.hasCall = true
 }
 
 func (r *FnRun) markMems(li *loopInfo, t types.Type) {
@@ -1133,9 +1174,21 @@ func (r *FnRun) load(st *State, ins ssa.Instruction, p Val, t types.Type) Val {
 	if !ok {
 		panic(unsupported(fmt.Sprintf("load through %T", p)))
 	}
-	r.implicitCheck(st, ins, "nil", Not(Eq(addr, BVInt(0, PtrW, false))))
+	if u, ok := ins.(*ssa.UnOp); !ok || !derivedAddr(u.X) {
+		r.implicitCheck(st, ins, "nil", Not(Eq(addr, BVInt(0, PtrW, false))))
+	}
 	r.checkLockedAccess(st, ins, addr, t, "read")
 	return r.loadAt(st, addr, t)
+}
+
+// derivedAddr: the address was computed by FieldAddr/IndexAddr, where the nil
+// check (resp. bounds check) of the base already happened.
+func derivedAddr(v ssa.Value) bool {
+	switch v.(type) {
+	case *ssa.FieldAddr, *ssa.IndexAddr:
+		return true
+	}
+	return false
 }
 
 func (r *FnRun) loadAt(st *State, addr Term, t types.Type) Val {
@@ -1212,7 +1265,9 @@ func (r *FnRun) store(st *State, ins ssa.Instruction, p Val, v Val, t types.Type
 	if !ok {
 		panic(unsupported(fmt.Sprintf("store through %T", p)))
 	}
-	r.implicitCheck(st, ins, "nil", Not(Eq(addr, BVInt(0, PtrW, false))))
+	if u, ok := ins.(*ssa.Store); !ok || !derivedAddr(u.Addr) {
+		r.implicitCheck(st, ins, "nil", Not(Eq(addr, BVInt(0, PtrW, false))))
+	}
 	r.checkLockedAccess(st, ins, addr, t, "write")
 	r.storeAt(st, addr, t, v, false)
 }
@@ -1302,6 +1357,12 @@ func (r *FnRun) index(st *State, x *ssa.Index) Val {
 	base := r.operand(st, x.X)
 	idx := r.operand(st, x.Index).(Term)
 	switch b := base.(type) {
+	case *StructVal:
+		if bt, ok := x.X.Type().Underlying().(*types.Basic); ok && bt.Info()&types.IsString != 0 {
+			idx64 := Resize(idx, 64, idx.Sort.Signed)
+			r.implicitCheck(st, x, "index", inRange(idx64, b.F[1].(Term)))
+			return Select(st.memArr("M8"), Add(b.F[0].(Term), Term{idx64.S, BV(64, false)}))
+		}
 	case *ArrayVal:
 		idx64 := Resize(idx, 64, idx.Sort.Signed)
 		r.implicitCheck(st, x, "index", inRange(idx64, BVInt(int64(len(b.E)), 64, true)))
@@ -1556,4 +1617,26 @@ func (r *FnRun) lookupLocal(st *State, at *ssa.BasicBlock, name string) (Val, ty
 		}
 	}
 	return nil, nil, false
+}
+
+// LemmaGoal turns a pure lemma (a closed formula over spec functions) into a goal.
+func (e *Engine) LemmaGoal(lm *Lemma) (g *Goal, err error) {
+	r := &FnRun{E: e, C: &FuncContract{Opts: map[string]string{}}, params: map[string]Val{}, ptypes: map[string]types.Type{}, lets: map[string]Val{},
+		FnName: "lemma." + lm.Name}
+	st := &State{regs: map[ssa.Value]Val{}, cells: map[*ssa.Alloc]Val{}, mem: map[string]Term{}, ghost: map[string]Val{}, run: r}
+	for _, m := range MemNames {
+		st.mem[m] = st.declare(m+"_0", memSort(m))
+	}
+	defer func() {
+		if x := recover(); x != nil {
+			if u, ok := x.(unsupportedErr); ok {
+				err = fmt.Errorf("%s", u.why)
+				return
+			}
+			panic(x)
+		}
+	}()
+	env := r.env(st, st)
+	t := env.evalBool(lm.E)
+	return &Goal{Oblig: "lemma." + lm.Name, Fn: "lemma." + lm.Name, Prefix: st.log, Goal: t, Expect: "unsat"}, nil
 }
